@@ -207,6 +207,89 @@ func toJSONable(v any) any {
 	return v
 }
 
+// auxBehaviours: file of terminal states exported by TLC from CliAux.tla (one JSON object per line), replayed on the binary.
+var auxBehaviours string
+
+type auxBehaviour struct {
+	Argv struct {
+		Cmd string `json:"cmd"`
+		At  string `json:"at"`
+	} `json:"argv"`
+	Exit    int    `json:"exit"`
+	Fs      string `json:"fs"`
+	Printed bool   `json:"printed"`
+}
+
+// replayAux runs `nfpm init` / `nfpm jsonschema` once per exported behaviour and projects the outcome onto CliAux's state.
+func replayAux(emit func(M), scratch, nfpmBin, repo string) int {
+	if auxBehaviours == "" {
+		return 0
+	}
+	b, err := os.ReadFile(auxBehaviours)
+	must(err)
+	wantInit, _ := os.ReadFile(repo + "/internal/cmd/example.yml")
+	wantSchema, _ := exec.Command(nfpmBin, "jsonschema").Output()
+	n := 0
+	for _, ln := range strings.Split(strings.TrimSpace(string(b)), "\n") {
+		var beh auxBehaviour
+		must(json.Unmarshal([]byte(ln), &beh))
+		n++
+		dir := filepath.Join(scratch, fmt.Sprintf("aux-%d", n))
+		must(os.MkdirAll(dir, 0o755))
+		target := filepath.Join(dir, "out.file")
+		old := bytes.Repeat([]byte("OLD-CONTENT-"), 40000)
+		switch beh.Argv.At {
+		case "existing_larger":
+			must(os.WriteFile(target, old, 0o644))
+		case "dir":
+			must(os.MkdirAll(target, 0o755))
+		case "missing_parent":
+			target = filepath.Join(dir, "no", "such", "dir", "out.file")
+		case "stdout":
+			target = "-"
+		}
+		flag, want := "-f", wantInit
+		if beh.Argv.Cmd == "jsonschema" {
+			flag, want = "-o", bytes.TrimRight(wantSchema, "\n")
+		}
+		cmd := exec.Command(nfpmBin, beh.Argv.Cmd, flag, target)
+		cmd.Dir = dir
+		var so, se bytes.Buffer
+		cmd.Stdout, cmd.Stderr = &so, &se
+		exit := 0
+		if err := cmd.Run(); err != nil {
+			exit = 1
+		}
+		obsFs := "absent"
+		if st, err := os.Lstat(target); err == nil && target != "-" {
+			if st.IsDir() {
+				obsFs = "old"
+			} else if got, err := os.ReadFile(target); err == nil {
+				switch {
+				case bytes.Equal(bytes.TrimRight(got, "\n"), bytes.TrimRight(want, "\n")):
+					obsFs = "complete"
+				case bytes.Equal(got, old):
+					obsFs = "old"
+				default:
+					obsFs = "partial"
+				}
+			}
+		}
+		printed := target == "-" && bytes.Equal(bytes.TrimRight(so.Bytes(), "\n"), bytes.TrimRight(want, "\n"))
+		stray := 0
+		filepath.Walk(dir, func(p string, fi os.FileInfo, err error) error {
+			if err == nil && !fi.IsDir() && p != target {
+				stray++
+			}
+			return nil
+		})
+		emit(M{"ev": "aux", "cmd": beh.Argv.Cmd, "at": beh.Argv.At, "tlc": M{"exit": beh.Exit, "fs": beh.Fs, "printed": beh.Printed},
+			"obs_exit": exit, "obs_fs": obsFs, "obs_printed": printed, "stray_files": stray, "stderr": safeStr(firstN(se.String(), 200))})
+		os.RemoveAll(dir)
+	}
+	return n
+}
+
 func famSchema(tr *Trace, scratch string, seed int64, tier string, repo, nfpmBin string) M {
 	id := 0
 	emit := func(ev M) {
@@ -466,6 +549,10 @@ func famSchema(tr *Trace, scratch string, seed int64, tier string, repo, nfpmBin
 			emit(M{"ev": "docprobe", "source": d.name, "is_yaml": doc != nil, "parser_accepts": perr == nil, "parser_err": pe, "schema_valid": doc != nil && len(errs) == 0, "schema_err": es})
 		}
 	}
+
+	// (3c) spec -> code: the terminal states TLC computed for `nfpm init` / `nfpm jsonschema` (CliAux.tla), on the real binary
+	naux := replayAux(emit, scratch, nfpmBin, repo)
+	_ = naux
 
 	// (4) generated valid configurations, as documents
 	rng := rand.New(rand.NewSource(seed + 4))
